@@ -210,6 +210,7 @@ void World::post_step(int r, Observer* obs) {
     if (actions.empty()) return;
     const std::time_t now = sched->simTime(static_cast<size_t>(r));
     const auto context = Action::Context{*st, (*sched)[static_cast<size_t>(r)].wlist_manager.get()};
+    if (getenv("VERIF_DEBUG_ACT")) for (const auto& a : actions) fprintf(stderr, "DEBUG_ACT base=%s step=%d now=%lld action=%s start=%lld ready=%d runs=%d\n", cfg.base.c_str(), r, static_cast<long long>(now), a.name().c_str(), static_cast<long long>(a.start_time()), a.ready(astate, now), static_cast<int>(astate.run_count(a)));
     for (const auto* action : actions.pending(astate, now)) {
         const auto result = action->eval(context);
         if (obs) obs->on_action_eval(*this, r, *action, result);
